@@ -395,6 +395,28 @@ func init() {
 					w.Case(id, func(c *C) { evalCfg(c, id, cfg, []File{{"c.yaml", cfg.YAML()}}, false, stub == 1) })
 				}
 			}
+			// aliases named like the first segments of the packages the generated code imports for itself (the runtime module,
+			// the standard library): declared and never used, or used for a fixture package - the generated code's own imports
+			// are not subject to the user's alias table
+			for ai, alias := range []string{"github.com", "github.com/gontainer", "github.com/gontainer/gontainer-helpers", "github.com/gontainer/gontainer-helpers/v3", "fmt", "os", "errors", "context", "reflect", "strconv", "container", "exporter", "caller", "copier", "grouperror", "golang.org"} {
+				for used := 0; used < 2; used++ {
+					for stub := 0; stub < 2; stub++ {
+						ai, alias, used, stub := ai, alias, used, stub
+						id := fmt.Sprintf("alias-named-like-own-imports/%d/used=%d/stub=%d", ai, used, stub)
+						w.Case(id, func(c *C) {
+							cfg := &Cfg{Meta: stdMeta(), Params: []Param{{"e", `%env("C01_X", "d")%`}, {"i", `%envInt("C01_I", 3)%`}, {"t", `%todo("later")%`}, {"m", "a%e%b%i%"}}}
+							cfg.Meta.Imports = append(append([]KV{}, cfg.Meta.Imports...), KV{alias, "fx/pk2"})
+							cfg.Services = []Service{{Name: "one", Constructor: P("pk.New"), Args: []any{"%m%", "x%e%"}, Getter: P("GetOne"), Type: P("*pk.Obj"), Tags: []Tag{{Name: "tg"}}, Fields: []KV{{"F1", "%i%"}}, Calls: []Call{{Method: "With1", Args: []any{"@two"}, Immutable: P(true)}}},
+								{Name: "two", Constructor: P("pk.New1"), Scope: P("contextual")}, {Name: "later", Todo: P(true)}}
+							cfg.Decorators = []Decorator{{Tag: "tg", Decorator: "pk.Dec1", Args: []any{"%i%"}}}
+							if used == 1 {
+								cfg.Services = append(cfg.Services, Service{Name: "viaAlias", Constructor: P(`"` + alias + `".New`), Getter: P("GetViaAlias"), Type: P(`*"` + alias + `".Obj`)})
+							}
+							evalCfg(c, id, cfg, []File{{"c.yaml", cfg.YAML()}}, false, stub == 1)
+						})
+					}
+				}
+			}
 			// literals x positions x stub
 			place := func(cfg *Cfg, pos string, v any) {
 				s := Service{Name: "sut", Constructor: P("pk.New")}
